@@ -52,9 +52,18 @@ import (
 type fakeNet struct {
 	beacon.Network
 	slot atomic.Uint64
+	gate func(call string) error
 }
 
-func (f *fakeNet) EstimatedCurrentSlot() phase0.Slot { return phase0.Slot(f.slot.Load()) }
+// EstimatedCurrentSlot: the value is read first; a split bump is then paused ("clock" pause point: clock read, nothing
+// else done yet) — the gate only stops the goroutine that runs the split bump.
+func (f *fakeNet) EstimatedCurrentSlot() phase0.Slot {
+	v := phase0.Slot(f.slot.Load())
+	if f.gate != nil {
+		_ = f.gate("clock")
+	}
+	return v
+}
 func (f *fakeNet) EstimatedCurrentEpoch() phase0.Epoch {
 	return f.EstimatedEpochAtSlot(f.EstimatedCurrentSlot())
 }
@@ -70,6 +79,12 @@ const (
 )
 
 // ---------------------------------------------------------------- world: db + signer + gate
+
+// opTimeout: per-op watchdog. A call into the key manager that the model does not expect to wait (those are issued as
+// delayed requests) and that has not returned after this long is observed as `hang`; the world is abandoned.
+const opTimeout = 6 * time.Second
+
+var errHang = errors.New("verif: the request did not return within the per-op watchdog")
 
 var (
 	errAbort = errors.New("verif: bump aborted (process restart)")
@@ -146,6 +161,11 @@ func goid() int64 {
 }
 
 func (w *world) hook(call string) error {
+	if call == "clock" {
+		if g := w.bumpGID.Load(); g == 0 || g != goid() {
+			return nil
+		}
+	}
 	if g := w.bumpGID.Load(); g != 0 && g == goid() {
 		w.ev <- "at:" + call
 		return <-w.rel
@@ -174,6 +194,23 @@ func (w *world) open() {
 	w.raw = ekm.VerifInstrument(km, w.hook)
 }
 
+// sweepStale removes database directories left behind by harness processes that were killed (timeout) before their
+// own clean-up: anything of ours that has not been touched for 3 hours (no run lasts that long).
+func sweepStale() {
+	ents, err := os.ReadDir(os.TempDir())
+	if err != nil {
+		return
+	}
+	for _, e := range ents {
+		if !e.IsDir() || !strings.HasPrefix(e.Name(), "verif-ekm-") {
+			continue
+		}
+		if info, err := e.Info(); err == nil && time.Since(info.ModTime()) > 3*time.Hour {
+			_ = os.RemoveAll(os.TempDir() + "/" + e.Name())
+		}
+	}
+}
+
 func newWorld() *world {
 	dir, err := os.MkdirTemp("", "verif-ekm-")
 	if err != nil {
@@ -181,26 +218,34 @@ func newWorld() *world {
 	}
 	w := &world{dir: dir, logger: zap.NewNop(), ev: make(chan string), rel: make(chan error)}
 	w.net = &fakeNet{Network: networkconfig.TestNetwork.Beacon.GetNetwork()}
+	w.net.gate = w.hook
 	w.open()
 	return w
 }
 
 // abortBump makes an in-flight split bump return (as a process kill would stop it) without writing.
-func (w *world) abortBump() {
+func (w *world) abortBump() bool {
 	if w.at == "" {
-		return
+		return true
 	}
 	w.turnBump.Store(true)
-	w.rel <- errAbort
 	for {
-		e := <-w.ev
-		if strings.HasPrefix(e, "done:") {
-			break
+		select {
+		case w.rel <- errAbort:
+		case <-time.After(opTimeout):
+			return false
 		}
-		w.rel <- errAbort
+		select {
+		case e := <-w.ev:
+			if strings.HasPrefix(e, "done:") {
+				w.turnBump.Store(false)
+				w.at = ""
+				return true
+			}
+		case <-time.After(opTimeout):
+			return false
+		}
 	}
-	w.turnBump.Store(false)
-	w.at = ""
 }
 
 // panicErr: a panic inside a harness goroutine, reported as that request's outcome instead of killing the process
@@ -229,13 +274,14 @@ func (w *world) spawn(f func()) {
 
 // joinAll blocks until every goroutine started with spawn has returned. Explicit synchronisation, no sleeps; the
 // watchdog only turns a harness bug (a goroutine that can never return) into a harness error instead of a silent hang.
-func (w *world) joinAll() {
+func (w *world) joinAll() bool {
 	done := make(chan struct{})
 	go func() { w.wg.Wait(); close(done) }()
 	select {
 	case <-done:
-	case <-time.After(60 * time.Second):
-		panic("harness error: goroutines still running against the database 60s after they were released")
+		return true
+	case <-time.After(2 * opTimeout):
+		return false
 	}
 }
 
@@ -245,7 +291,9 @@ func (w *world) restart() {
 	if w.at != "" {
 		panic("harness error: restart with a bump in flight (quiesce first)")
 	}
-	w.joinAll()
+	if !w.joinAll() {
+		panic("harness error: restart of a world that still has goroutines inside it (quiesce first)")
+	}
 	if !w.closed {
 		if err := w.db.Close(); err != nil {
 			panic(err)
@@ -259,7 +307,9 @@ func (w *world) shutdown() {
 	if w.at != "" {
 		panic("harness error: shutdown with a bump in flight (quiesce first)")
 	}
-	w.joinAll()
+	if !w.joinAll() {
+		return // something is still inside: leave the database alone, the process exits anyway
+	}
 	if !w.closed {
 		_ = w.db.Close()
 		w.closed = true
@@ -470,15 +520,16 @@ func mkBlinded(slot, salt uint64) *apiv1capella.BlindedBeaconBlock {
 // ---------------------------------------------------------------- the driver
 
 type H struct {
-	run      *hx.Run
-	w        *world
-	cs       *caseState
-	salt     uint64
-	rng      *hx.Rng
-	spe      uint64
-	cur      string // the op line being executed
-	hangs    int
-	sigCount map[string]int
+	run       *hx.Run
+	w         *world
+	cs        *caseState
+	salt      uint64
+	rng       *hx.Rng
+	spe       uint64
+	cur       string // the op line being executed
+	hangs     int
+	concHangs int // concurrent bursts that hung in the pinned library (observation; limits further bursts)
+	sigCount  map[string]int
 
 	delayed    *delayedOp // a lock-taking request issued while a paused bump holds the wallet lock
 	delayedObs string     // its observation, once it has completed (reported by `resume`)
@@ -497,10 +548,32 @@ type delayedOp struct {
 // quiesce brings the world to rest before its database is closed / reopened or the next case starts: the in-flight
 // bump is aborted (it returns without further writes and releases the wallet lock), the request that was waiting for
 // it is joined (it runs now), and every other harness goroutine of the world has returned.
-func (h *H) quiesce() {
-	h.w.abortBump()
-	h.collectDelayed()
-	h.w.joinAll()
+// It reports false when something did not come back within the watchdog (a hanging implementation): the caller then
+// abandons the world instead of closing it.
+func (h *H) quiesce() bool {
+	return h.w.abortBump() && h.collectDelayed() && h.w.joinAll()
+}
+
+// call runs one call into the key manager under the per-op watchdog.
+func (h *H) call(f func() error) error {
+	ch := make(chan error, 1)
+	h.w.spawn(func() { ch <- safely(f) })
+	select {
+	case err := <-ch:
+		return err
+	case <-time.After(opTimeout):
+		return errHang
+	}
+}
+
+// hangOp: the op did not complete although the model does not make it wait: observation `hang` (a model≠impl
+// disagreement with this case as replay); the world is discarded and the case ends.
+func (h *H) hangOp(line string) {
+	h.run.Tag("hang:" + strings.Fields(line)[0])
+	h.run.Seen("hang:" + strings.Fields(line)[0])
+	h.emit(line, "hang")
+	h.hangs++
+	h.abandon()
 }
 
 // abandon: the signer of the current world is wedged (goroutines parked for ever inside the pinned library's lock).
@@ -517,17 +590,20 @@ func (h *H) abandon() {
 
 // collectDelayed waits for the delayed request once the bump has released the lock. A request that does not
 // come back is a HARNESS ERROR (the process exits non-zero), never a pass.
-func (h *H) collectDelayed() {
+func (h *H) collectDelayed() bool {
 	if h.delayed == nil {
-		return
+		return true
 	}
 	select {
 	case err := <-h.delayed.ch:
 		h.delayedObs = h.delayed.done(err)
-	case <-time.After(30 * time.Second):
-		panic("harness error: a request delayed behind BumpSlashingProtection did not complete within 30s after the bump finished")
+		h.delayed = nil
+		return true
+	case <-time.After(opTimeout):
+		h.delayedObs = "hang" // the bump has finished but the waiting request still does not return
+		h.delayed = nil
+		return false
 	}
-	h.delayed = nil
 }
 
 // recordAtt / recordBlk: oracle for one RELEASED signature (pairwise against everything released before for the
@@ -633,7 +709,7 @@ func (h *H) issueDelayed(line string, ws []string, sh *share) {
 }
 
 // each hang costs a timeout and an abandoned signer; after this many the concurrent requests stop
-const maxHangs = 10
+const maxHangs = 8
 
 func kvOf(ws []string, k string) (uint64, bool) {
 	for _, x := range ws {
@@ -683,7 +759,12 @@ func (h *H) newShare() *share {
 
 // waitBump hands the turn to the split-bump goroutine and waits for its next event.
 func (h *H) waitBump() string {
-	e := <-h.w.ev
+	var e string
+	select {
+	case e = <-h.w.ev:
+	case <-time.After(opTimeout):
+		return "hang" // the bump neither reached its next pause point nor returned
+	}
 	h.w.turnBump.Store(false)
 	if strings.HasPrefix(e, "at:") {
 		h.w.at = e[3:]
@@ -702,7 +783,10 @@ func (h *H) doOp(line string) {
 	h.cur = line
 	if ws[0] == "reset" {
 		// a new self-contained case: fresh share keys on the SAME database, clock set by the line
-		h.quiesce()
+		if !h.quiesce() {
+			h.abandon()
+			w = h.w
+		}
 		h.delayedObs = ""
 		n, _ := kvOf(ws, "shares")
 		c, _ := kvOf(ws, "clock")
@@ -715,7 +799,7 @@ func (h *H) doOp(line string) {
 		return
 	}
 	if h.cs == nil {
-		panic("op before reset: " + line)
+		return // the case was abandoned (hang): skip to the next reset
 	}
 	cs := h.cs
 	run.Tag("op:" + ws[0])
@@ -728,9 +812,17 @@ func (h *H) doOp(line string) {
 	}
 	switch ws[0] {
 	case "add", "addfail", "remove", "removefail", "bump", "satt", "sattf", "sblk", "sblkf", "conc", "xconc":
-		if w.at != "" && ekm.VerifWalletLocked(w.km) {
-			h.issueDelayed(line, ws, sh)
-			return
+		// Will the request have to wait? Probed on the real lock (TryLock / TryRLock), not assumed: sign requests take the
+		// wallet lock for reading, add / remove / bump for writing. A request that does not have to wait is executed
+		// right away even if a bump is paused (its observation is then what the real code does; the model says `blocked`).
+		if w.at != "" {
+			held, readersBlock := ekm.VerifWalletState(w.km)
+			needsWrite := !strings.HasPrefix(ws[0], "s") && ws[0] != "conc" && ws[0] != "xconc"
+			if readersBlock || (needsWrite && held) {
+				h.issueDelayed(line, ws, sh)
+				return
+			}
+			run.Tag("request-not-blocked-by-paused-bump")
 		}
 	}
 	switch ws[0] {
@@ -748,7 +840,10 @@ func (h *H) doOp(line string) {
 		h.emit(line, "ok")
 	case "restart":
 		inflight := w.at != ""
-		h.quiesce() // the in-flight bump is aborted, a request that was waiting for it runs now (before the process goes down)
+		if !h.quiesce() { // the in-flight bump is aborted, a request that was waiting for it runs now (before the process goes down)
+			h.hangOp(line)
+			return
+		}
 		before := make([]string, len(cs.shares))
 		for i, s := range cs.shares {
 			before[i] = w.readback(s)
@@ -769,8 +864,12 @@ func (h *H) doOp(line string) {
 		}
 		w.failHit = false
 		had := ekm.VerifHasAccountNoLock(w.km, sh.pk)
-		err := w.km.AddShare(sh.sk)
+		err := h.call(func() error { return w.km.AddShare(sh.sk) })
 		w.failCall = ""
+		if errors.Is(err, errHang) {
+			h.hangOp(line)
+			return
+		}
 		run.Seen(hx.Sprintf("%s:had=%v:%s:hit=%v", ws[0], had, opErrTag(err), w.failHit))
 		h.emit(line, opErrTag(err)+" "+w.readback(sh))
 	case "remove", "removefail":
@@ -780,13 +879,21 @@ func (h *H) doOp(line string) {
 		}
 		w.failHit = false
 		had := ekm.VerifHasAccountNoLock(w.km, sh.pk)
-		err := w.km.RemoveShare(hx.Hex(sh.pk))
+		err := h.call(func() error { return w.km.RemoveShare(hx.Hex(sh.pk)) })
 		w.failCall = ""
+		if errors.Is(err, errHang) {
+			h.hangOp(line)
+			return
+		}
 		run.Seen(hx.Sprintf("%s:had=%v:%s", ws[0], had, opErrTag(err)))
 		h.emit(line, opErrTag(err)+" "+w.readback(sh))
 	case "bump":
 		hasA, _, _, hasP, _ := w.records(sh)
-		err := w.km.(ekm.StorageProvider).BumpSlashingProtection(sh.pk)
+		err := h.call(func() error { return w.km.(ekm.StorageProvider).BumpSlashingProtection(sh.pk) })
+		if errors.Is(err, errHang) {
+			h.hangOp(line)
+			return
+		}
 		run.Seen(hx.Sprintf("bump:att=%v:prop=%v:%s", hasA, hasP, opErrTag(err)))
 		h.emit(line, opErrTag(err)+" "+w.readback(sh))
 	case "bbegin":
@@ -804,9 +911,13 @@ func (h *H) doOp(line string) {
 			w.bumpGID.Store(0)
 			w.ev <- "done:" + opErrTag(err)
 		})
-		h.emit(line, h.waitBump()+" "+w.readback(sh))
+		if res := h.waitBump(); res == "hang" {
+			h.hangOp(line)
+		} else {
+			h.emit(line, res+" "+w.readback(sh))
+		}
 	case "bread", "bwrite":
-		want := map[string]bool{"retrAtt": true, "retrProp": true}
+		want := map[string]bool{"clock": true, "retrAtt": true, "retrProp": true}
 		if ws[0] == "bwrite" {
 			want = map[string]bool{"saveAtt": true, "saveProp": true}
 		}
@@ -814,17 +925,29 @@ func (h *H) doOp(line string) {
 			h.emit(line, "badop "+w.readback(sh))
 			return
 		}
-		at := w.at
 		hasA, hs0, ht0, hasP, hp0 := w.records(sh)
-		w.turnBump.Store(true)
-		w.rel <- nil
-		res := h.waitBump()
+		res := "pending"
+		if w.at == "clock" { // from "clock read" to "about to read the attestation record": nothing observable happens
+			w.rel <- nil
+			res = h.waitBump()
+		}
+		at := w.at
+		if res == "pending" {
+			w.turnBump.Store(true)
+			w.rel <- nil
+			res = h.waitBump()
+		}
+		if res == "hang" {
+			h.hangOp(line)
+			return
+		}
 		if res != "pending" {
 			cs.bumpK = -1
 		}
 		_, hs1, ht1, _, hp1 := w.records(sh)
-		if res != "pending" {
-			h.collectDelayed() // the bump has released the wallet lock: the waiting request executes now
+		if res != "pending" && !h.collectDelayed() { // the bump has released the wallet lock: the waiting request executes now
+			h.hangOp(line)
+			return
 		}
 		stale := h.clock() != cs.bumpAt0
 		if at == "saveAtt" && hasA && (hs1 < hs0 || ht1 < ht0) || at == "saveProp" && hasP && hp1 < hp0 {
@@ -843,14 +966,23 @@ func (h *H) doOp(line string) {
 		att := mkAtt(h.clock(), s, t, h.salt)
 		hasA, hs, ht, _, _ := w.records(sh)
 		chk := "ok"
-		if err := w.km.(spectypes.BeaconSigner).IsAttestationSlashable(sh.pk, att); err != nil {
-			chk = refuseTag(err)
-		}
 		if ws[0] == "sattf" {
 			w.dbFault, w.dbFaultHit = mode, false
 		}
-		sig, _, err := w.km.SignBeaconObject(att, phase0.Domain{}, sh.pk, spectypes.DomainAttester)
+		var sig spectypes.Signature
+		err := h.call(func() error {
+			if e := w.km.(spectypes.BeaconSigner).IsAttestationSlashable(sh.pk, att); e != nil {
+				chk = refuseTag(e)
+			}
+			var e error
+			sig, _, e = w.km.SignBeaconObject(att, phase0.Domain{}, sh.pk, spectypes.DomainAttester)
+			return e
+		})
 		w.dbFault = ""
+		if errors.Is(err, errHang) {
+			h.hangOp(line)
+			return
+		}
 		out := "signed"
 		if err != nil {
 			out = "refused:" + refuseTag(err)
@@ -861,7 +993,10 @@ func (h *H) doOp(line string) {
 			out = "empty-signature"
 		}
 		if ws[0] == "sattf" && mode == "close" {
-			h.quiesce()
+			if !h.quiesce() {
+				h.hangOp(line)
+				return
+			}
 			w.restart() // reopen the same database (the process that was shutting down is gone)
 			cs.bumpK = -1
 		}
@@ -896,14 +1031,23 @@ func (h *H) doOp(line string) {
 		}
 		_, _, _, hasP, hp := w.records(sh)
 		chk := "ok"
-		if err := w.km.(spectypes.BeaconSigner).IsBeaconBlockSlashable(sh.pk, phase0.Slot(slot)); err != nil {
-			chk = refuseTag(err)
-		}
 		if ws[0] == "sblkf" {
 			w.dbFault, w.dbFaultHit = mode, false
 		}
-		sig, _, err := w.km.SignBeaconObject(obj, phase0.Domain{}, sh.pk, spectypes.DomainProposer)
+		var sig spectypes.Signature
+		err := h.call(func() error {
+			if e := w.km.(spectypes.BeaconSigner).IsBeaconBlockSlashable(sh.pk, phase0.Slot(slot)); e != nil {
+				chk = refuseTag(e)
+			}
+			var e error
+			sig, _, e = w.km.SignBeaconObject(obj, phase0.Domain{}, sh.pk, spectypes.DomainProposer)
+			return e
+		})
 		w.dbFault = ""
+		if errors.Is(err, errHang) {
+			h.hangOp(line)
+			return
+		}
 		out := "signed"
 		if err != nil {
 			out = "refused:" + refuseTag(err)
@@ -914,7 +1058,10 @@ func (h *H) doOp(line string) {
 			out = "empty-signature"
 		}
 		if ws[0] == "sblkf" && mode == "close" {
-			h.quiesce()
+			if !h.quiesce() {
+				h.hangOp(line)
+				return
+			}
 			w.restart()
 			cs.bumpK = -1
 		}
@@ -1044,7 +1191,7 @@ func (h *H) doConc(line string, ws []string, sh *share) {
 	}
 	if strings.Contains(string(got), "?") {
 		h.run.Tag("conc:hang")
-		h.hangs++
+		h.concHangs++
 		n, _ := h.run.Extra["concurrent_hangs"].(int)
 		h.run.Extra["concurrent_hangs"] = n + 1
 		if _, ok := h.run.Extra["concurrent_hang_example"]; !ok {
@@ -1166,7 +1313,7 @@ func (h *H) doXconc(line string, ws []string, sh *share) {
 	stop.Store(true)
 	if hung {
 		h.run.Tag("xconc:hang")
-		h.hangs++
+		h.concHangs++
 		h.abandon()
 		return
 	}
@@ -1334,7 +1481,7 @@ func (h *H) genCase(idx int) {
 		case x < 44:
 			h.doOp(hx.Sprintf("tick dt=%d", r.Pick(1, 1, 2, 5, 31, 32, 32, 32, 33, 64, 100)))
 		case x < 78:
-			if concOK && hasA && r.Chance(20) && !inflight && h.hangs < maxHangs {
+			if concOK && hasA && r.Chance(20) && !inflight && h.concHangs < maxHangs {
 				var rq []string
 				for j := 0; j < 2+r.Intn(2); j++ {
 					s, t := h.genAtt(hasA, hs, ht, e, false)
@@ -1494,10 +1641,14 @@ func main() {
 	defer run.Finish()
 	threshold.Init()
 	h := &H{run: run, rng: hx.NewRng(run.Seed), sigCount: map[string]int{}}
+	sweepStale()
 	h.w = newWorld()
 	defer func() {
-		h.quiesce()
-		h.w.shutdown()
+		if h.quiesce() {
+			h.w.shutdown()
+		} else {
+			h.abandoned = append(h.abandoned, h.w)
+		}
 		for _, a := range h.abandoned {
 			_ = os.RemoveAll(a.dir) // database left open on purpose, the process exits right after
 		}
@@ -1520,7 +1671,11 @@ func main() {
 	}
 	// quick tier: n = number of histories
 	for i := 0; i < run.N; i++ {
-		if i%6 == 5 && h.hangs < maxHangs {
+		if h.hangs >= maxHangs {
+			run.Tag("stopped-after-hangs") // a hanging implementation: the disagreements are recorded, do not burn the time budget
+			break
+		}
+		if i%6 == 5 && h.concHangs < maxHangs {
 			h.genXconcCase()
 			continue
 		}
